@@ -575,7 +575,7 @@ CHARDATA_INPUTS = [b"C" * 256, b"C" * 270 + b",1", b"MAX", b"max,1", b"ABCDEFGHI
 ELEMENT_INPUTS = [
     b'"abc"', b"'abc'", b'""', b"''", b'"a""b"', b"'a''b'", b'"it\'s"', b"'say \"hi\"'", b'"""', b'""""', b'"abc', b"'abc", b'"abc" ,1', b'"abc";', b'"abc"\n', b'"abc"x', b'"abc" x', b'"a\xffb"', b'"a,b;c"', b'"a"" "',
     b"(@1,2)", b"(1:3)", b"()", b"(abc", b"(a(b)", b'(a"b)', b"(a;b)", b"(a) ,", b"(a)x", b"(a\xe9)", b"(a'b)",
-    b"#10", b"#10,5", b"#10;", b"#10 ,5", b"#10\n", b"#10x", b"#13abc", b"#13abc,", b"#13abc ;", b"#13ab", b"#13abcd", b"#210abcdefghij", b"#210abcdefghi", b"#1", b"#2", b"#21", b"#1x", b"#14\xff;,\n", b"#14\xff;,\nX", b"#0abc\n", b"#0abc", b"#0", b"#0\n", b"#0a\nb\n", b"#3001x", b"#3001",
+    b"#10", b"#10,5", b"#10;", b"#10 ,5", b"#10\n", b"#10x", b"#13abc", b"#13abc,", b"#13abc ;", b"#13ab", b"#13abcd", b"#210abcdefghij", b"#210abcdefghi", b"#1", b"#2", b"#21", b"#1x", b"#14\xff;,\n", b"#14\xff;,\nX", b"#0abc\n", b"#0abc", b"#0", b"#0\n", b"#0a\nb\n", b"#3001x", b"#3001", b"#2+5hello", b"#3+05hello", b"#1+", b"#2-0", b"#2 5hello", b"#15hello",
     b"+-2", b"--5", b"-+1", b"2e+-3", b"1e--5", b"1", b"+1", b"-1", b"1.5", b".5", b"1.", b"-.5", b"+0.0", b"1e5", b"1E5", b"1e+5", b"1E-5", b"1.5e10", b".5E2", b"1e40000", b"1e-40000", b"0e999999", b"-2.5E+99999",
     b"1" + b"0" * 40, b"0." + b"0" * 40 + b"1", b"1e", b"1e+", b".", b"-", b"+.", b"-e5", b"1,2", b"1 ,2", b"1;", b"1\n", b"1 2", b"1 V", b"1V", b"1 mV", b"1.5e3 KHZ", b"1 V/S", b"1 V.S-1",
     b"1 ABCDEFGHIJKL", b"1 ABCDEFGHIJKLM", b"1 " + b"V" * 256, b"1 " + b"V" * 268 + b";", b"1V 2", b"1 V;", b"1 V ,2", b"1.5.5", b"1..", b"12345678901234567890123",
@@ -643,7 +643,9 @@ def element_engine():
         txt = bytes(b_)
         g = eng.concrete_gargs(st, t["callee"])
         rng = fdai._INT_RANGE.get(g[0] if g else "usize") or (0, 2 ** 64 - 1)
-        body_txt = txt[1:] if txt[:1] in (b"+", b"-") and rng[0] < 0 else txt
+        # as audited on the pinned lexical-core (probed when defect F20 was triaged): the complete integer parser takes a
+        # leading `+` for every type and a leading `-` for the signed ones
+        body_txt = txt[1:] if (txt[:1] == b"+" or (txt[:1] == b"-" and rng[0] < 0)) else txt
         if body_txt.isdigit() and rng[0] <= int(txt) <= rng[1]:
             return fdai.mk_ok(K(int(txt)))
         return fdai.mk_err(fdai.SymV("lexical-error", "lexical-error"))
